@@ -72,6 +72,8 @@ _mk("C01", "C01 (printer/parser structure): the 13 printers' templates satisfy T
     "printer-template extraction by partial evaluation, template erasure comparison, writer/reader table agreement, light type inference, guard-formula equivalence")
 _mk("C02", "C02 (four structural conditions): branch bookkeeping is driven by a left-to-right traversal of the text, every find/rfind slice bound is taken on the sliced string (package-wide) and following text stops at ')' and '[', weight / list-weight definitions at every exit of the descriptor constructor, bond-order table, descriptor numbering. The scanner's behaviour on arbitrary SMILES text is NOT decided.",
     "information-flow shape of the stack updates, reaching-definition identity of slice operands, guard structure of attribute stores, finite evaluation of the bond-order ladder")
+_mk("C16", "C16: node coverage (both element kinds, repeat and end tokens, one node per descriptor, identity hashing), for each of the probability families the normaliser loop and the edge loop agree on collection / filter / term, scalar-weight probability edges are control-dependent on is_compatible of their endpoints, edge pools equal the generator's pools, zero-weight targets excluded from constant edges. Numeric equality in degenerate cases is NOT decided.",
+    "sibling agreement between accumulate and emit loops (conjunct sets modulo loop-variable renaming), control dependence of add_edge sites, provenance of the normalised list")
 
 NOT_APPLICABLE = {}
 for _i in range(1, 21):
